@@ -92,6 +92,11 @@ pub type Deps = OwnedDeps<MockStorage, MockApi, MockQuerier>;
 // What echo handlers call
 
 thread_local! { static BIRTHS: std::cell::Cell<u32> = const { std::cell::Cell::new(0) }; }
+thread_local! { static RUNS: std::cell::Cell<u32> = const { std::cell::Cell::new(0) }; }
+/// How many echo handlers have run on this thread so far (every handler reports itself first thing, see rec::handler_on).
+pub fn runs() -> u32 {
+    RUNS.with(|r| r.get())
+}
 /// The serial number of a contract value built by the parameterless constructor (1001, 1002, ...): the generated programs store it
 /// in the contract, handlers report it -- every call through a generated entry point must run on a value built for that call (C06).
 pub fn next_birth() -> u32 {
@@ -176,6 +181,7 @@ pub mod rec {
 
     /// A handler reports that it runs: `tag` identifies the contract value it runs on (`self.tag`).
     pub fn handler_on(tag: u32, prog: &str, part: &str, name: &str, kind: &str, args: Vec<(&str, Value)>, ctx: Value) {
+        super::RUNS.with(|r| r.set(r.get() + 1));
         let args: Vec<Value> = args.into_iter().map(|(n, j)| json!({"n": n, "json": j})).collect();
         rt::emit(json!({"ev":"Handler","prog":prog,"part":part,"name":name,"kind":kind,"args":args,"ctx":ctx,"tag":tag}));
     }
@@ -281,6 +287,29 @@ pub mod rec {
     }
 
     /// C16 observation: the query response table of one message type (or of the contract-level one).
+    thread_local! { static ANYOF_SAME: std::cell::Cell<bool> = const { std::cell::Cell::new(true) }; }
+    /// The contract-level message `W` seen by a schema generator that may already have seen other types: is its schema the any-of of
+    /// exactly `parts` (the schemas the same generator gives for the messages of the contract's parts)? The answer is attached to the
+    /// next `Schemas` event of a contract.
+    pub fn anyof_in<W: schemars::JsonSchema>(gen: &mut schemars::gen::SchemaGenerator, parts: Vec<schemars::schema::Schema>) {
+        use schemars::schema::Schema;
+        let s = gen.subschema_for::<W>();
+        let prefix = gen.settings().definitions_path.clone();
+        let obj = match s {
+            Schema::Object(o) => match o.reference.as_ref().and_then(|r| r.strip_prefix(prefix.as_str()).map(String::from)) {
+                Some(name) => match gen.definitions().get(&name) { Some(Schema::Object(d)) => Some(d.clone()), _ => None },
+                None => Some(o),
+            },
+            _ => None,
+        };
+        let text = |x: &Schema| serde_json::to_string(x).unwrap_or_default();
+        let mut want: Vec<String> = parts.iter().map(text).collect();
+        let mut got: Vec<String> = obj.and_then(|o| o.subschemas).and_then(|s| s.any_of).unwrap_or_default().iter().map(text).collect();
+        want.sort();
+        got.sort();
+        ANYOF_SAME.with(|c| c.set(want == got));
+    }
+
     pub fn schemas(prog: &str, part: &str, table: Result<std::collections::BTreeMap<String, schemars::schema::RootSchema>, String>, anyof: i64) {
         schemas_at(prog, part, "GenVal", table, anyof)
     }
@@ -297,7 +326,8 @@ pub mod rec {
                     let ty = known.iter().find(|(_, s)| s == v).map(|(n, _)| *n).unwrap_or("other");
                     json!({"name": k, "ty": ty, "title": v.schema.metadata.as_ref().and_then(|m| m.title.clone()).unwrap_or_default()})
                 }).collect();
-                rt::emit(json!({"ev":"Schemas","prog":prog,"part":part,"inst":inst,"verdict":"ok","rows":rows,"anyof":anyof}));
+                let same = part != "contract" || ANYOF_SAME.with(|c| c.replace(true));
+                rt::emit(json!({"ev":"Schemas","prog":prog,"part":part,"inst":inst,"verdict":"ok","rows":rows,"anyof":anyof,"anyof_same":same}));
             }
             Err(e) => rt::emit(json!({"ev":"Schemas","prog":prog,"part":part,"inst":inst,"verdict":"err","rows":[],"anyof":anyof,"err":e})),
         }
